@@ -12,7 +12,7 @@ COMMON_ASSUMPTIONS = [
 PROPS = {
     "C19": {
         "engines": [{"name": "sched"},
-                    {"name": "sched_instr", "variant": "instr"},
+                    {"name": "sched_instr", "variant": "instr", "scheduler": True},
                     {"name": "sched_race", "variant": "race", "gomaxprocs": "2", "env": {"GORACE": "halt_on_error=1"}, "nondeterministic": True, "replay_attempts": 20},
                     {"name": "sched_race", "variant": "race", "gomaxprocs": "4", "env": {"GORACE": "halt_on_error=1"}, "nondeterministic": True, "replay_attempts": 20},
                     {"name": "sched_race", "variant": "race", "gomaxprocs": "16", "env": {"GORACE": "halt_on_error=1"}, "nondeterministic": True, "replay_attempts": 20}],
